@@ -770,6 +770,7 @@ func (p *Parser) parseMapExpression() (Node, error) {
 
 	// Parse the map key-value pairs
 	items := make(map[Node]Node)
+	var keys []Node // source order of the keys, so evaluation order is well defined
 
 	// Check if there are any items
 	if p.tokenIndex < len(p.tokens) &&
@@ -799,6 +800,7 @@ func (p *Parser) parseMapExpression() (Node, error) {
 
 			// Add key-value pair to map
 			items[keyExpr] = valueExpr
+			keys = append(keys, keyExpr)
 
 			// Check for comma separator between items
 			if p.tokenIndex < len(p.tokens) &&
@@ -828,6 +830,7 @@ func (p *Parser) parseMapExpression() (Node, error) {
 			line:     line,
 		},
 		items: items,
+		keys:  keys,
 	}, nil
 }
 
